@@ -27,22 +27,23 @@ CONFIG = {'assumptions': [
 LEVEL = {'text': 'Machine-checked refinement of a state machine (caches, object heap with identity, link fields, memo '
                  'fields, one cursor per stream, generator frames) against a stateless reference: an invariant '
                  '(cache lists sorted, duplicate-free and parallel; every cached unit/entry/abbreviation table/line '
-                 'program is the pure parse at its key; parent/terminator links true; memo fields equal the pure '
-                 'result) holds initially, and every valid operation EXCEPT entry-tree navigation (get_parent, '
-                 'resuming iter_children/iter_siblings/iter_DIEs) returns the stateless answer and keeps the '
-                 'invariant; lifted by induction to every finite history, with corollaries (answer after any history '
-                 '= answer of a fresh object, repeated queries equal, generator element = offset/index query for '
-                 'units, sections, symbols, dynamic tags). Entry-tree navigation is pinned by correspondence only. '
-                 'The machine is pinned to the code by bounded-exhaustive state exploration and long random '
-                 'histories with adversarial repositioning of every stream.',
+                 'program is the pure parse at its key; unit and entry objects unique per offset; parent/terminator '
+                 'links true; memo fields equal the pure result) holds initially, and EVERY valid operation - queries, '
+                 'get_parent with its ancestor search, creating and resuming iter_CUs/iter_DIEs/iter_children/'
+                 'iter_siblings/iter_sections/iter_symbols/iter_tags, stream repositioning - returns the stateless '
+                 'answer and keeps the invariant; lifted by induction to every finite history, with corollaries '
+                 '(answer after any history = answer of a fresh object, repeated queries equal, generator element = '
+                 'offset/index query for units, entries, sections, symbols, dynamic tags). The machine is pinned to '
+                 'the code by bounded-exhaustive state exploration and long random histories with adversarial '
+                 'repositioning of every stream.',
          'design_ref': '4.10', 'technique': 'Coq proof (invariant + refinement, lifted over fold_left) + '
                                             'extracted-model correspondence on call histories',
-         'note': 'Theorems named *_partial carry the hypothesis plain_ok (valid query, outside the finding, not a '
-                 'navigation step); the full statement (op_ok) lacks the proof for children_next/search_loop/'
-                 'subtree_next/siblings_next. C10_lineprog_file_entry_refuted witnesses the known finding '
-                 '(LineProg after LineEntries on a program with DW_LNE_define_file); the theorems exclude exactly '
-                 'LineProg on such files. wf_file now also demands distinct line-program start offsets and that '
-                 'header name resolution does not read .debug_line.'}
+         'note': 'No theorem is partial. C10_lineprog_file_entry_refuted witnesses the known finding (LineProg after '
+                 'LineEntries on a program with DW_LNE_define_file); op_ok excludes exactly LineProg on such files. '
+                 'Hypotheses: wf_file (units tile .debug_info, entry trees tile their units, DW_AT_sibling truthful, '
+                 'distinct line-program starts), fuel_ok (model loop fuel above the size bound of the file), valid_op '
+                 '(offset-exact lookups name a unit/entry start). What the bytes decode to is abstract (parse '
+                 'functions of the file description); decoding itself is the subject of C04/C05/C06.'}
 RULE = ('cases: (file, history, last operation); bfs = every abstract state reachable within the depth bound x every '
         'operation of the alphabet on 3 synthesized files, rnd = random histories on seed binaries with a Disturb '
         'after every call (minimised when failing). distinct = hash(kind, file, history); non-trivial = history '
@@ -835,13 +836,18 @@ def _hist_txt(h):
     return '(' + ' '.join(out) + ')'
 
 
+def _fuel(meta):
+    """fuel of the model's loops: above the bound fuel_ok (Spec/C10Spec.v) demands"""
+    fuel = 64 + 8 * sum(len(entries_of(u['tree'])) for u in meta['units']) + 2 * meta['num_tags'] + len(meta['units'])
+    return max(fuel, 200)
+
+
 def drv_runs(ctx, meta, histories, stride=0, raw_last=False):
     """-> per history (model answers, spec answers, valid flags, [state texts]).
     raw_last: only the LAST call's answers, as text '(answer)', and valid as a bool (no parsing)."""
     if not histories:
         return []
-    fuel = 64 + 4 * sum(len(entries_of(u['tree'])) for u in meta['units']) + 2 * meta['num_tags'] + len(meta['units'])
-    fuel = max(fuel, 200)
+    fuel = _fuel(meta)
     file_txt = meta.get('desc_txt')
     if file_txt is None:
         file_txt = meta['desc_txt'] = sx.dumps(meta['desc'])
@@ -1077,10 +1083,10 @@ def evaluate(ctx, cases):
     iso = {}
     for name, idxs in by_file.items():
         meta = load_file(name)
-        wf, nodef = ctx.driver.one(['wf', meta['desc']])
-        wf = bool(wf) and not meta.get('lp_disagree')
+        wf, nodef, fuel_ok = ctx.driver.one(['wf', meta['desc'], _fuel(meta)])
+        wf = bool(wf) and bool(fuel_ok) and not meta.get('lp_disagree')
         if not wf:
-            ctx.notes.append('wf_file is false for %s: its cases are out of domain' % name)
+            ctx.notes.append('wf_file / fuel_ok is false for %s: its cases are out of domain' % name)
         t = iso.setdefault(name, [0, 0, None])
         bfs = [i for i in idxs if cases[i][0] == 'bfs']
         rnd = [i for i in idxs if cases[i][0] != 'bfs']
